@@ -1017,7 +1017,10 @@ void Analyser::AnalyserImpl::analyseNode(const XmlNodePtr &node,
         // Token elements.
 
     } else if (node->isMathmlElement("ci")) {
-        auto variableName = node->firstChild()->convertToStrippedString();
+        // Note: a comment may sit next to the name of the variable (the validator accepts it), so don't rely on the first
+        //       child being the text.
+
+        auto variableName = nonCommentChildNode(node, 0)->convertToStrippedString();
         auto variable = component->variable(variableName);
         // Note: we always have a variable. Indeed, if we were not to have one,
         //       it would mean that `variableName` is the name of a variable
@@ -1047,9 +1050,9 @@ void Analyser::AnalyserImpl::analyseNode(const XmlNodePtr &node,
         if (mathmlChildCount(node) == 1) {
             // We are dealing with an e-notation based CN value.
 
-            ast->mPimpl->populate(AnalyserEquationAst::Type::CN, node->firstChild()->convertToStrippedString() + "e" + node->firstChild()->next()->next()->convertToStrippedString(), astParent);
+            ast->mPimpl->populate(AnalyserEquationAst::Type::CN, nonCommentChildNode(node, 0)->convertToStrippedString() + "e" + nonCommentChildNode(node, 2)->convertToStrippedString(), astParent);
         } else {
-            ast->mPimpl->populate(AnalyserEquationAst::Type::CN, node->firstChild()->convertToStrippedString(), astParent);
+            ast->mPimpl->populate(AnalyserEquationAst::Type::CN, nonCommentChildNode(node, 0)->convertToStrippedString(), astParent);
         }
 
         std::string unitsName = node->attribute("units");
